@@ -64,7 +64,7 @@ theorem goodUnit_bare (o : Obu) (hwf : hdrWF o.hdr = true) (hk : o.kept = true) 
     simp only [Obu.sized, List.length_append, marshal_length, hsz]
     rw [List.drop_left' (by rw [marshal_length]; rfl)]
     have : ({ type := o.hdr.type, ext := o.hdr.ext, hasSize := false, reserved1 := o.hdr.reserved1 } : ObuHeader).size = o.hdr.size := rfl
-    simp [this]
+    simp
 
 theorem okBytes_map_ok (outs : List Bytes) : Pred.C13.okBytes ((outs.map Res.ok).map Res.coarse) = some outs := by
   induction outs with
@@ -161,7 +161,7 @@ theorem rt_pred (hleb : LebGoSpec) (mtu : UInt16) (hm : 2 ≤ mtu.toNat) (obus :
   rw [AV1B.payloadB_eq, payload_eq mtu _ hm]
   simp only [Bool.not_false, Bool.true_and, Pred.C13.rtWF, hm, decide_true, hwf, Bool.and_self,
     Bool.not_true, Bool.false_or, hrules, hden, BEq.rfl, List.length_map, hfr, hbytes,
-    depFeed_length', hd1, okBytes_map_ok, Option.map_some, hd2, hsized, zip_map_all]
+    hd1, okBytes_map_ok, Option.map_some, hd2, hsized, zip_map_all]
   simp only [hol, BEq.rfl, Bool.and_true, List.all_eq_true]
   intro x hx
   obtain ⟨p, hp, rfl⟩ := List.mem_map.mp hx
